@@ -14,7 +14,7 @@ pub struct Scenario {
     pub name: &'static str,
     pub alpha: Vec<Rec>,
     /// actions available at a scenario cursor: (operation, next cursor)
-    pub actions: Box<dyn Fn(&Extra) -> Vec<(Op, Extra)> + Sync>,
+    pub actions: Box<dyn Fn(&Extra) -> Vec<(Op, Extra)> + Sync + Send>,
     /// S1 only: payloads (type, bytes, single-message?) for the direct formulation
     pub payloads: Vec<(u8, Vec<u8>, bool)>,
     pub max_depth: usize,
